@@ -582,3 +582,145 @@ Proof.
   pose proof (convert_substs_ground _ _ _ _ _ Hg H2). subst sc2. split; [reflexivity|].
   eapply convert_subst_commutes_thm; eauto.
 Qed.
+
+(** * The literal reading: the substituted rule converted in a FRESH scope.
+    For a substitution that is ground and total on the rule's variables (what an execution trace
+    provides) and a rule without binders, [convert scope0 (ksubst t k)] is [inst d (convert k)];
+    the only thing left of the scope is the numbering of sort variables, which is the same because
+    [ksubst] does not move sort-variable occurrences. *)
+Definition set_meta (M:list string) (sc:scope) : scope := mkScope M (sc_sort sc).
+
+Fixpoint no_exists (k:kore) : bool :=
+  match k with
+  | KEVar _ _ => true
+  | KNode op _ args => match op with OpExists => false | _ => true end && forallb no_exists args
+  end.
+
+Lemma convert_sort_set_meta : forall S sc s sc' p M, convert_sort S sc s = Some (sc', p) ->
+  sc_meta sc' = sc_meta sc /\ convert_sort S (set_meta M sc) s = Some (set_meta M sc', p).
+Proof.
+  intros S sc [a|n] sc' p M H; simpl in *.
+  - destruct (resolve a (sc_sort sc)) as [l j]. inversion H; subst. split; reflexivity.
+  - destruct (has_sort S n); inversion H; subst. split; reflexivity.
+Qed.
+
+Lemma convert_sorts_set_meta : forall S ss sc sc' ps M, convert_sorts S sc ss = Some (sc', ps) ->
+  sc_meta sc' = sc_meta sc /\ convert_sorts S (set_meta M sc) ss = Some (set_meta M sc', ps).
+Proof.
+  induction ss as [|s t IH]; intros sc sc' ps M H; simpl in *.
+  - inversion H; subst. split; reflexivity.
+  - destruct (convert_sort S sc s) as [[sc1 p]|] eqn:E1; [|discriminate].
+    destruct (convert_sorts S sc1 t) as [[sc2 ps']|] eqn:E2; [|discriminate]. inversion H; subst.
+    destruct (convert_sort_set_meta _ _ _ _ _ M E1) as [X1 Y1]. destruct (IH _ _ _ M E2) as [X2 Y2].
+    rewrite Y1, Y2. split; [congruence | reflexivity].
+Qed.
+
+Lemma convert_sorts_ground_any : forall S ss sc sc' ps,
+  forallb sort_ground ss = true -> convert_sorts S sc ss = Some (sc', ps) ->
+  forall sc2, convert_sorts S sc2 ss = Some (sc2, ps).
+Proof.
+  induction ss as [|s t IH]; intros sc sc' ps Hg H sc2; simpl in *; [inversion H; reflexivity|].
+  apply andb_true_iff in Hg. destruct Hg as [G1 G2]. destruct s as [a|n]; [discriminate|]. simpl in *.
+  destruct (has_sort S n); [|discriminate].
+  destruct (convert_sorts S sc t) as [[sc3 ps']|] eqn:E; [|discriminate]. inversion H; subst.
+  rewrite (IH _ _ _ G2 E sc2). reflexivity.
+Qed.
+
+Lemma convert_ground_any : forall S k, ground k = true -> forall sc sc' p,
+  convert S sc k = Some (sc', p) -> forall sc2, convert S sc2 k = Some (sc2, p).
+Proof.
+  intros S k. induction k as [x s|op ss args IH] using kore_ind'; intros Hg sc sc' p H sc2; [discriminate|].
+  rewrite convert_node in *. simpl in Hg. apply andb_true_iff in Hg. destruct Hg as [G1 G2].
+  destruct (convert_sorts S sc ss) as [[sc1 pss]|] eqn:E1; [|discriminate].
+  pose proof (convert_sorts_ground _ _ _ _ _ G1 E1). subst sc1.
+  rewrite (convert_sorts_ground_any _ _ _ _ _ G1 E1 sc2).
+  destruct (convert_list S sc args) as [[sc3 pas]|] eqn:E2; [|discriminate].
+  assert (EL : convert_list S sc2 args = Some (sc2, pas)).
+  { clear H E1. revert sc sc3 pas E2. induction args as [|a r IHr]; intros sc sc3 pas E2; simpl in *; [inversion E2; reflexivity|].
+    inversion IH as [|? ? Ha Hr]; subst. apply andb_true_iff in G2. destruct G2 as [B1 B2].
+    destruct (convert S sc a) as [[sca pa]|] eqn:Ea; [|discriminate].
+    pose proof (convert_ground _ _ _ _ _ B1 Ea). subst sca. rewrite (Ha B1 _ _ _ Ea sc2).
+    destruct (convert_list S sc r) as [[scr pr]|] eqn:Er; [|discriminate]. inversion E2; subst.
+    rewrite (IHr Hr B2 _ _ _ Er). reflexivity. }
+  rewrite EL. destruct (build S op pss pas); [|discriminate]. inversion H; subst. reflexivity.
+Qed.
+
+Definition subst_covers (S:sig) (scF:scope) (t:list (string * kore)) (d:list (N * kpat)) (k:kore) : Prop :=
+  forall x s, In (x, s) (kevars k) ->
+    exists v pv i, assoc x t = Some v /\ meta_id scF x = Some i /\ lookup i d = Some pv
+                   /\ (forall sc, convert S sc v = Some (sc, pv)).
+
+Lemma convert_subst_sim : forall S scF t d,
+  (forall i q, In (i, q) d -> (i < 100)%N) ->
+  forall k sc sc' p M,
+    convert S sc k = Some (sc', p) -> extends sc' scF -> subst_covers S scF t d k -> no_exists k = true ->
+    convert S (set_meta M sc) (ksubst t k) = Some (set_meta M sc', inst d p).
+Proof.
+  intros S scF t d Hkeys k. induction k as [x s|op ss args IH] using kore_ind'; intros sc sc' p M H He Hc Hn.
+  - simpl in H. destruct (resolve x (sc_meta sc)) as [l i] eqn:E. inversion H; subst.
+    apply resolve_spec in E. destruct E as [_ Hi].
+    destruct (Hc x s (or_introl eq_refl)) as [v [pv [i0 [A1 [A2 [A3 A4]]]]]].
+    assert (Hm : meta_id scF x = Some (N.of_nat i)).
+    { eapply meta_id_extends; [exact He|]. unfold meta_id. simpl. rewrite Hi. reflexivity. }
+    assert (i0 = N.of_nat i) by congruence. subst i0.
+    simpl. rewrite A1, A3. rewrite A4. reflexivity.
+  - simpl ksubst. rewrite convert_node in *.
+    destruct (convert_sorts S sc ss) as [[sc1 pss]|] eqn:E1; [|discriminate].
+    destruct (convert_list S sc1 args) as [[sc2 pas]|] eqn:E2; [|discriminate].
+    destruct (build S op pss pas) as [q|] eqn:E3; [|discriminate]. inversion H; subst.
+    destruct (convert_sorts_set_meta _ _ _ _ _ M E1) as [_ Y1]. rewrite Y1.
+    simpl in Hn. apply andb_true_iff in Hn. destruct Hn as [Hop Hargs].
+    assert (EL : convert_list S (set_meta M sc1) (map (ksubst t) args) = Some (set_meta M sc', map (inst d) pas)).
+    { assert (Hc' : forall a, In a args -> subst_covers S scF t d a).
+      { intros a Ha x s Hin. apply (Hc x s). simpl. apply in_flat_map. exists a. split; assumption. }
+      clear H E1 E3 Y1 Hc Hop. revert sc1 pas E2 Hc'.
+      induction args as [|a r IHr]; intros sc1 pas E2 Hc'; simpl in *; [inversion E2; subst; reflexivity|].
+      inversion IH as [|? ? Ha Hr]; subst. apply andb_true_iff in Hargs. destruct Hargs as [B1 B2].
+      destruct (convert S sc1 a) as [[sca pa]|] eqn:Ea; [|discriminate].
+      destruct (convert_list S sca r) as [[scr pr]|] eqn:Er; [|discriminate]. inversion E2; subst.
+      assert (Hex : extends sca scF).
+      { eapply extends_trans; [|exact He].
+        assert (Forall (convert_ok S) r) by (apply Forall_forall; intros; apply convert_spec).
+        eapply convert_list_spec; eauto. }
+      rewrite (Ha _ _ _ M Ea Hex (Hc' a (or_introl eq_refl)) B1).
+      rewrite (IHr Hr B2 _ _ Er (fun a0 H0 => Hc' a0 (or_intror H0))). reflexivity. }
+    rewrite EL.
+    rewrite (build_inst S op pss pas p d E3); [reflexivity | |].
+    + apply convert_sorts_spec in E1. destruct E1 as [_ PS].
+      eapply map_opt_Forall; [|exact PS]. intros a b Hab. eapply pconvert_sort_fixed; eauto.
+    + intros ->. discriminate.
+Qed.
+
+Lemma assoc_In : forall {A} x (t:list (string * A)) v, assoc x t = Some v -> In (x, v) t.
+Proof.
+  induction t as [|[y w] t IH]; intros v H; simpl in *; [discriminate|].
+  destruct (String.eqb x y) eqn:E.
+  - apply String.eqb_eq in E. subst. inversion H; subst. left. reflexivity.
+  - right. apply IH. exact H.
+Qed.
+
+Theorem convert_subst_commutes_fresh_thm : forall S k sc1 p t sc2 d,
+  convert S scope0 k = Some (sc1, p) ->
+  forallb (fun xv => ground (snd xv)) t = true ->
+  convert_substs S sc1 t = Some (sc2, d) ->
+  List.length (sc_meta sc1) <= 100 ->
+  no_exists k = true ->
+  (forall x s, In (x, s) (kevars k) -> assoc x t <> None) ->
+  convert S scope0 (ksubst t k) = Some (mkScope [] (sc_sort sc1), inst d p).
+Proof.
+  intros S k sc1 p t sc2 d H1 Hg H2 Hlen Hn Htot.
+  pose proof (convert_substs_ground _ _ _ _ _ Hg H2). subst sc2.
+  apply convert_substs_spec in H2. destruct H2 as [_ R].
+  assert (Hkeys : forall i q, In (i, q) d -> (i < 100)%N).
+  { intros i q Hin. pose proof (subst_rel_keys _ _ _ _ _ _ R Hin). lia. }
+  change scope0 with (set_meta [] scope0).
+  change (mkScope [] (sc_sort sc1)) with (set_meta [] sc1).
+  eapply convert_subst_sim; eauto using extends_refl.
+  intros x s Hin. destruct (assoc x t) as [v|] eqn:Ea; [|exfalso; eapply Htot; eauto].
+  destruct (proj1 (scope_injective_thm _ _ _ _ _ H1)) as [_ _].
+  destruct (scope_injective_thm _ _ _ _ _ H1) as [_ [_ [Hv _]]]. destruct (Hv x s Hin) as [i Hi].
+  pose proof (lookup_rel S sc1 t d x i R Hi) as L. rewrite Ea in L. destruct L as [pv [L1 L2]].
+  exists v, pv, i. repeat split; auto.
+  intros sc. apply pconvert_convert in L1. eapply convert_ground_any; [|exact L1].
+  apply assoc_In in Ea. rewrite forallb_forall in Hg. apply (Hg (x, v) Ea).
+Qed.
